@@ -88,8 +88,9 @@ def main():
         # the demo may hard-code its author's worktree path
         src = open(demo).read()
         patched_demo = os.path.join(tree, 'seed_demo.py')
-        author_tree = '/tmp/seed/' + meta.get('property', 'C00')
-        open(patched_demo, 'w').write(src.replace(author_tree, tree))
+        for root in ('/tmp/seed2/', '/tmp/seed/'):
+            src = src.replace(root + meta.get('property', 'C00'), tree)
+        open(patched_demo, 'w').write(src)
 
         r0 = sh(['/venv/bin/python', patched_demo], cwd=tree, env=env,
                 timeout=600)
